@@ -97,3 +97,54 @@ example : pLiteral (writeString [92, 13, 10, 0, 255] .lit ++ [62, 62]) = some ([
   lit_rt_partial _ _ (by intro b hb; simp at hb; rcases hb with h|h|h|h|h <;> subst h <;> decide)
 
 end Lopdf
+
+namespace Lopdf
+open Gen
+
+/-- the decimal texts `Display` prints for non-integral finite reals (and the writer's `….0`
+form): optional minus, at least one digit, a point, any digits -/
+structure IsDecimal (t : Bytes) : Prop where
+  parts : ∃ (neg : Bool) (d1 d2 : Bytes), t = (if neg then [45] else []) ++ d1 ++ [46] ++ d2
+    ∧ d1 ≠ [] ∧ (∀ b ∈ d1, isDigit b = true) ∧ (∀ b ∈ d2, isDigit b = true)
+
+/-- **Reals (text level).** Every such decimal text is read back by `real` as exactly that
+text, followed by anything that does not start with a digit; `f32::from_str ∘ Display = id`
+(Rust std) then gives the same real. -/
+theorem real_rt (t rest : Bytes) (h : IsDecimal t) (hr : NoDigitAhead rest) :
+    pReal (t ++ rest) = some (t, rest) := by
+  obtain ⟨neg, d1, d2, rfl, hne, h1, h2⟩ := h.parts
+  have hdot : ∀ b r, ([46] ++ d2 ++ rest : Bytes) = b :: r → isDigit b = false := by
+    intro b r h; simp at h; obtain ⟨rfl, _⟩ := h; decide
+  have s1 : spanP isDigit (d1 ++ ([46] ++ d2 ++ rest)) = (d1, [46] ++ d2 ++ rest) := spanP_append isDigit d1 _ h1 hdot
+  have s2 : spanP isDigit (d2 ++ rest) = (d2, rest) := spanP_append isDigit d2 rest h2 hr
+  cases hd : d1 with
+  | nil => exact absurd hd hne
+  | cons a as =>
+    have ha : isDigit a = true := h1 a (by rw [hd]; simp)
+    have hns : a ≠ 43 ∧ a ≠ 45 := by constructor <;> (intro e; subst e; simp [isDigit] at ha)
+    have hsign : ∀ r : Bytes, optSign (a :: r) = ([], a :: r) := by
+      intro r
+      unfold optSign
+      split
+      · rename_i heq; injection heq with e _; exact absurd e hns.1
+      · rename_i heq; injection heq with e _; exact absurd e hns.2
+      · rfl
+    cases neg
+    · simp only [Bool.false_eq_true, if_false, List.nil_append, List.append_assoc]
+      rw [hd] at s1
+      unfold pReal
+      simp only [List.cons_append, List.nil_append, List.append_assoc] at s1 ⊢
+      rw [hsign]
+      simp only [s1]
+      simp [s2]
+    · simp only [if_true, List.cons_append, List.nil_append, List.append_assoc]
+      rw [hd] at s1
+      unfold pReal
+      simp only [List.cons_append, List.nil_append, List.append_assoc, optSign] at s1 ⊢
+      simp only [s1]
+      simp [s2]
+
+example : IsDecimal [45, 48, 46, 53] :=
+  ⟨⟨true, [48], [53], rfl, by simp, by intro b hb; simp at hb; subst hb; decide, by intro b hb; simp at hb; subst hb; decide⟩⟩
+
+end Lopdf
